@@ -906,7 +906,8 @@ def _factorize_single(by, expect, *, sort: bool, reindex: bool) -> tuple[pd.Inde
     elif isinstance(expect, pd.IntervalIndex):
         if expect.closed == "both":
             raise NotImplementedError
-        bins = np.concatenate([expect.left.to_numpy(), expect.right.to_numpy()[[-1]]])
+        # [-1:] rather than [[-1]]: an IntervalIndex without intervals has no last edge
+        bins = np.concatenate([expect.left.to_numpy(), expect.right.to_numpy()[-1:]])
 
         # digitize is 0 or idx.max() for values outside the bounds of all intervals
         # make it behave like pd.cut which uses -1:
